@@ -1268,7 +1268,10 @@ func (c *Compiler) BuildWhens(n parse.Node) []schema.WhenContext {
 
 		whenMachine, errW := expr.NewExprMachine(when.ArgWhen(), mapFn)
 		if errW != nil {
-			c.error(n, errW)
+			// name the statement that carries the expression: after
+			// uses, augment, refine or deviate it need not be written
+			// where the node is, nor in the same module
+			c.error(when, errW)
 		}
 		errMsg := fmt.Sprintf("'when' condition is false: '%s'", when.ArgWhen())
 
@@ -1276,7 +1279,7 @@ func (c *Compiler) BuildWhens(n parse.Node) []schema.WhenContext {
 			pathEvalMachine, errPE = path_eval.NewPathEvalMachine(
 				when.ArgWhen(), mapFn, extractFileAndLineFromErrorContext(when))
 			if errPE != nil {
-				c.error(n, errPE)
+				c.error(when, errPE)
 			}
 		}
 		whenNs, err := when.YangPrefixToNamespace("", c.modules, c.skipUnknown)
@@ -1319,7 +1322,7 @@ func (c *Compiler) BuildMusts(n parse.Node) []schema.MustContext {
 		if mustMachine == nil {
 			mustMachine, errM = expr.NewExprMachine(baseMustExpr, mapFn)
 			if errM != nil {
-				c.error(n, errM)
+				c.error(must, errM)
 			}
 			mustExpr = baseMustExpr
 		}
